@@ -427,7 +427,7 @@ Definition page_start (c : config) (s : state) (p : list host) : state :=
   {| plan := make_plan p (tgt c); consumed := consumed s; pools := pools s; msg_cl := msg_cl s; retries := retries s;
      nconsult := nconsult s; errors := errors s; queue := queue s; attempts := attempts s;
      fin_res := None; fin_exc := None; spec_armed := false; spec_left := spec_left s;
-     conn_ks := conn_ks s; paging := paging s; page_no := S (page_no s); elapsed := elapsed s; borrowed := borrowed s |}.
+     conn_ks := conn_ks s; paging := paging s; page_no := S (page_no s); elapsed := false; borrowed := borrowed s |}      (* _start_time = time.time(): each page fetch has its own timeout *).
 
 (* ---------------------------------------------------------------- one step *)
 Definition step (c : config) (s : state) (o : op) : state * list event :=
